@@ -285,3 +285,142 @@ def gen_reductions(repo, out):
 
 
 GENS = {"c15_reductions": gen_reductions}
+
+
+# ======================================================================================================
+# census of EVERY parallel call site of the crate
+PAR_METHODS = ("into_par_iter", "par_iter", "par_iter_mut", "par_bridge", "par_chunks", "par_chunks_exact", "par_chunks_mut", "par_extend",
+               "par_sort", "par_sort_by", "par_sort_unstable", "par_drain", "par_windows", "par_split", "into_signal_idler_par_iterator")
+RAYON_FNS = ("join", "join_context", "scope", "scope_fifo", "spawn", "spawn_fifo", "in_place_scope", "current_num_threads", "current_thread_index",
+             "ThreadPoolBuilder", "broadcast", "yield_now", "yield_local")
+TERMINALS = ("sum", "collect", "for_each", "for_each_with", "for_each_init", "reduce", "reduce_with", "fold", "fold_with", "count", "min", "max", "min_by", "max_by",
+             "min_by_key", "max_by_key", "product", "any", "all", "find_any", "find_first", "find_last", "position_any", "position_first", "unzip", "partition",
+             "collect_into_vec", "try_for_each", "try_reduce", "try_fold", "collect_vec_list", "find_map_any", "find_map_first")
+
+
+def walk(e, f):
+    """apply f to every tuple node of an AST"""
+    if isinstance(e, tuple):
+        f(e)
+        for x in e:
+            walk(x, f)
+    elif isinstance(e, list):
+        for x in e:
+            walk(x, f)
+
+
+def strip_noncode(src):
+    """source text without comments, string literals and #[cfg(test)] modules (textual, for the fail-closed count)"""
+    import re
+    s = re.sub(r"//[^\n]*", "", src)
+    s = re.sub(r"/\*.*?\*/", "", s, flags=re.S)
+    s = re.sub(r'"(?:\\.|[^"\\])*"', '""', s)
+    out, i = [], 0
+    for m in re.finditer(r"#\[cfg\(test\)\]\s*(?:pub(?:\([a-z]+\))?\s+)?mod\s+\w+\s*\{", s):
+        if m.start() < i:
+            continue
+        out.append(s[i:m.start()])
+        depth, j = 1, m.end()
+        while j < len(s) and depth:
+            depth += {"{": 1, "}": -1}.get(s[j], 0)
+            j += 1
+        i = j
+    out.append(s[i:])
+    return "".join(out)
+
+
+def gen_parsites(repo, out):
+    import re
+    rows = []
+    srcdir = os.path.join(repo, "src")
+    files = []
+    for d, _, fs in os.walk(srcdir):
+        for fn in sorted(fs):
+            if fn.endswith(".rs"):
+                files.append(os.path.join(d, fn))
+    files.sort()
+    # which tuple-struct spaces wrap which grid
+    si_src = open(os.path.join(srcdir, "jsa", "si_iterator.rs")).read()
+    wraps = dict(re.findall(r"pub struct (\w+)\((?:pub )?(\w+)<", si_src))
+    for path in files:
+        src = open(path).read()
+        code = strip_noncode(src)
+        rel = os.path.relpath(path, repo)
+        n_text = len(re.findall(r"\.\s*(" + "|".join(PAR_METHODS) + r")\s*(?:::<[^>]*>)?\s*\(", code))
+        n_rayon = len(re.findall(r"\brayon::(?:" + "|".join(RAYON_FNS) + r")\b", code))
+        if n_text == 0 and n_rayon == 0:
+            continue
+        items = [it for it in parse_file(path) if it.kind == "fn"]
+        found = []
+        n_ast_rayon = [0]
+        for it in items:
+            if it.error:
+                lo, hi = it.span
+                body = strip_noncode("\n".join(src.split("\n")[lo - 1:hi]))
+                if re.search(r"\b(" + "|".join(PAR_METHODS) + r")\b|\brayon::", body):
+                    raise Untranslatable(path, lo, f"{it.name}: unparsed function mentions a parallel construct")
+                continue
+            inner = set()
+            chains = []
+
+            def visit(e, it=it, inner=inner, chains=chains):
+                if e[0] == "mcall" and id(e) not in inner:
+                    src_e, calls = unchain(e)
+                    x = e
+                    while x[0] == "mcall":
+                        inner.add(id(x))
+                        x = x[1]
+                    if any(m in PAR_METHODS for m, _ in calls):
+                        chains.append((src_e, calls))
+                if e[0] == "call" and e[1][0] == "path" and e[1][1][0] == "rayon" and e[1][1][-1] in RAYON_FNS:
+                    n_ast_rayon[0] += 1
+                    chains.append((e, []))
+            walk(it.body, visit)
+            for src_e, calls in chains:
+                found.append((it, src_e, calls))
+        n_ast = sum(sum(1 for m, _ in calls if m in PAR_METHODS) for _, _, calls in found)
+        if n_ast != n_text or n_ast_rayon[0] != n_rayon:
+            raise Untranslatable(path, 0, f"parallel constructs in the text ({n_text} method calls, {n_rayon} rayon:: calls) do not match those found in parsed function bodies "
+                                          f"({n_ast}, {n_ast_rayon[0]}): a parallel call site is outside the translated subset")
+        for it, src_e, calls in found:
+            fn = "::".join(it.container[-1:] + [it.name])
+            out.span(f"c15_parsites.{rel}.{fn}.{len(rows)}", it)
+            if not calls:
+                rows.append((rel, fn, show(src_e)[:60], "rayon-call", "", [], [], "call"))
+                continue
+            meths = [m for m, _ in calls]
+            k = next(i for i, m in enumerate(meths) if m in PAR_METHODS)
+            if any(m in PAR_METHODS for m in meths[k + 1:]):
+                raise Untranslatable(path, it.span[0], f"{fn}: two parallel entries in one chain")
+            pre, entry, post = meths[:k], meths[k], meths[k + 1:]
+            terminal = post[-1] if post and post[-1] in TERMINALS else "iter"
+            adaptors = post[:-1] if terminal != "iter" else post
+            stext = show(src_e)
+            # producer kind from the chain root
+            if src_e[0] == "call" and src_e[1] == ("path", ["Steps"]):
+                kind = "Steps1D"
+            elif strip_paren(src_e)[0] == "range":
+                kind = "RangeInclusive" if strip_paren(src_e)[3] else "Range"
+            elif stext in ("ranges", "range1", "range2") and pre == ["as_steps"]:
+                kind = "Steps2D"
+            elif stext == "self.0" and not pre and it.container and wraps.get(it.container[-1]) == "Steps2D":
+                kind = "Steps2D"
+            elif stext == "chunked" and not pre:
+                kind = "Vec"
+            elif stext == "range" and entry == "into_signal_idler_par_iterator" and not pre:
+                kind = "SignalIdlerSpace"
+            else:
+                kind = "unknown:" + stext[:40] + ("." + ".".join(pre) if pre else "")
+            rows.append((rel, fn, stext[:60], kind, entry, pre, adaptors, terminal))
+    body = ";\n   ".join(f"mk_psite {cs(a)} {cs(b)} {cs(c)} {cs(d)} {cs(e)} {clist(f)} {clist(g)} {cs(h)}" for a, b, c, d, e, f, g, h in rows)
+    text = ("(* GENERATED by tools/gen/c15_reductions.py (generator `c15_parsites`) from every src/**/*.rs that mentions a parallel construct — do not edit.\n"
+            "   A census: every method chain with a parallel entry (into_par_iter, par_iter, par_bridge, …, into_signal_idler_par_iterator) and every\n"
+            "   rayon:: call found in the parsed function bodies; the generator fails when the textual count of such constructs differs. *)\n"
+            "From Coq Require Import String List.\nImport ListNotations.\nLocal Open Scope string_scope.\n\n"
+            "Record psite := mk_psite { ps_file : string; ps_fn : string; ps_source : string; ps_producer : string; ps_entry : string;\n"
+            "  ps_pre : list string; ps_adaptors : list string; ps_terminal : string }.\n\n"
+            f"Definition par_sites : list psite :=\n  [{body}].\n")
+    out.write("C15_ParSites.v", text)
+
+
+GENS["c15_parsites"] = gen_parsites
